@@ -449,6 +449,9 @@ func colliderCase2(c *vlib.Case, n, queries int) {
 	for q := 0; q < queries; q++ {
 		r, rk := genRay2(rng, s)
 		cen, rad, ck := genCircle2(rng, s)
+		if rng.Intn(8) == 0 {
+			rad, ck = -rad*math.Pow(10, 2*rng.Float64()), ck+"-negative-radius"
+		}
 		r2, sk := genRay2(rng, s)
 		f := pick(rng, []float64{0.5, 1, 1, 2, 4, 0.25})
 		qs := &model2d.Segment{r2.Origin, r2.Origin.Add(r2.Direction.Scale(f))}
